@@ -506,6 +506,27 @@ let () =
          | _ -> "badidl")
       | _ -> failwith "codec")
 
+(* ---- certification (C19) ---- *)
+let () =
+  (* cert_matches <idl> <method> <canonical params json> <params json> *)
+  register "cert_matches" (fun a ->
+      match a with
+      | [x; name; cj; j] ->
+        (match Idl.try_from (codepoints (unhex x)) with
+         | Idl.OIdl i ->
+           let env = Gen.typedefs_of i in
+           let nm = cps_of_ascii name in
+           (match (try Some (Stdlib.List.find (fun ((n, _), _) -> n = nm) (Gen.methods_of i)) with Not_found -> None),
+                  Json.parse_value (hb cj), Json.parse_value (hb j) with
+            | Some ((_, fs), _), Base.Ok canon, Base.Ok jv ->
+              (match Cert.read_params env (fun _ -> fs) Datatypes.O jv with
+               | None -> "invalid"
+               | Some _ ->
+                 if Cert.matches env (fun _ -> fs) (fun _ _ -> canon) Datatypes.O [] jv then "match" else "nomatch")
+            | _, _, _ -> "badinput")
+         | _ -> "badidl")
+      | _ -> failwith "cert_matches")
+
 let () =
   let tbl = handlers in
   (try
